@@ -474,9 +474,21 @@ def threadsafe_async_cache(
                         await waiter
                     except aio.CancelledError:
                         pass
+                elif waiter.cancelled() and not _being_cancelled():
+                    # Only the wait on the caching loop was cancelled,
+                    # most likely because that loop is shutting down.
+                    # This task wasn't cancelled, so loop around and
+                    # check instead of leaking the foreign cancellation.
+                    continue
                 raise
 
     return _wrapper  # type: ignore[return-value]
+
+
+def _being_cancelled() -> bool:
+    """Has cancellation been requested for the current task? (3.11+)"""
+    cancelling = getattr(aio.current_task(), 'cancelling', None)
+    return bool(cancelling and cancelling())
 
 
 _BufferFunc = Callable[[Set[T]], Awaitable[None]]
